@@ -120,8 +120,13 @@ TReturn ==
                       \cup (IF (Eff(opts).url /\ o.urlfield # "same") \/ (~Eff(opts).url /\ o.urlfield # "empty")
                             THEN {"C13_ResultURL"} ELSE {})
                       \cup (IF o.wc # wc THEN {"C20_ResultWordCount"} ELSE {})
-                      \* C09: with only text blocks retained and no title, WordCount is the number of words of the text
-                      \cup (IF o.onlytxt /\ o.ntitle = 0 /\ o.wc # o.txtwc THEN {"C09_WordCountMatchesText"} ELSE {})
+           \* C09: with only text blocks retained and no title, WordCount is the number of words of the text.
+           \* The class tells the one recorded finding apart from every other disagreement: WordCount counts the words
+           \* of each text node, so a word that continues across an inline element (10<sup>th</sup>) is counted once
+           \* per text node - the difference is then exactly the number of such joints in the text view.
+           c09 == IF ~isErr /\ o.onlytxt /\ o.ntitle = 0 /\ o.wc # o.txtwc THEN {"C09_WordCountMatchesText"} ELSE {}
+           c09class == IF ~isErr /\ o.glued > 0 /\ o.wc - o.txtwc = o.glued
+                       THEN "word-continues-across-inline-elements" ELSE entry \o "/" \o root
            b2 == (IF ~o.treesame THEN {"C10_TreeUntouched"} ELSE {})
                  \cup (IF ~o.optssame THEN {"C10_OptionsUntouched"} ELSE {})
            \* ---- group rules: most specific first
@@ -148,7 +153,8 @@ TReturn ==
        IN  /\ pc' = "returned"
            /\ result' = [result EXCEPT !.err = isErr]
            /\ mem' = mem \cup {m \in add : ~Seen(m.k)}
-           /\ bad' = bad \cup b /\ Report(b)
+           /\ bad' = bad \cup b \cup c09 /\ Report(b)
+           /\ \A name \in c09 : PrintT(<<"@@BAD", ToJson([run |-> run, inv |-> name, class |-> c09class])>>)
     /\ UNCHANGED <<root, opts, passes, flags, wc1, wc, nfilt, paginated, callerWrites, run, grp, prop, entry, urlid, bytes, docid, variant>>
 
 TCrash == /\ (IsEvent("Panic") \/ IsEvent("Hang")) /\ Mine
